@@ -135,6 +135,31 @@ func alphaPicture(rng *rand.Rand, w, h int, pattern string, typ string) (image.I
 		return r, plane
 	case "generic":
 		return genericImage{img}, plane
+	case "NRGBA-view", "RGBA-view":
+		// a window into a larger parent full of other pixels: non-zero origin, Stride > 4*width
+		pr := image.Rect(0, 0, w+7, h+5)
+		win := image.Rect(3, 2, 3+w, 2+h)
+		if typ == "NRGBA-view" {
+			parent := image.NewNRGBA(pr)
+			rng.Read(parent.Pix)
+			for y := 0; y < h; y++ {
+				for x := 0; x < w; x++ {
+					parent.SetNRGBA(3+x, 2+y, img.NRGBAAt(x, y))
+				}
+			}
+			return parent.SubImage(win), plane
+		}
+		parent := image.NewRGBA(pr)
+		for i := 0; i < len(parent.Pix); i += 4 { // valid premultiplied garbage
+			a := rng.Intn(256)
+			parent.Pix[i], parent.Pix[i+1], parent.Pix[i+2], parent.Pix[i+3] = uint8(rng.Intn(a+1)), uint8(rng.Intn(a+1)), uint8(rng.Intn(a+1)), uint8(a)
+		}
+		for y := 0; y < h; y++ {
+			for x := 0; x < w; x++ {
+				parent.Set(3+x, 2+y, img.NRGBAAt(x, y))
+			}
+		}
+		return parent.SubImage(win), plane
 	}
 	return img, plane
 }
@@ -168,7 +193,7 @@ func checkC07(args []string) {
 			w, h = 320+rng.Intn(40), 200+rng.Intn(30)
 		}
 		pat := alphaPatterns[rng.Intn(len(alphaPatterns))]
-		typ := []string{"NRGBA", "NRGBA", "RGBA", "generic"}[rng.Intn(4)]
+		typ := []string{"NRGBA", "NRGBA", "RGBA", "generic", "NRGBA-view", "RGBA-view"}[rng.Intn(6)]
 		o := *webp.DefaultOptions()
 		o.Quality = float32(rng.Intn(101))
 		o.Method = rng.Intn(7)
